@@ -1,45 +1,78 @@
 (* C19 — the four leaf functions as re-translated from the C text on this run
-   (gen/Params_C19.v) equal the model's check/update. *)
+   (gen/Params_C19.v) equal the model's check/update.  The proofs are deliberately
+   independent of the SHAPE of the generated terms (guard clauses, ternaries, hoisted locals,
+   compare-and-reset instead of %): everything is unfolded to integer arithmetic over the
+   comparisons and decided by lia, so that a behaviour-preserving rewrite of the C text keeps
+   these obligations while a semantic change breaks them. *)
 From MV Require Import Lib.Leaf C19.Model C19.Proofs gen.Params_C19.
+From Coq Require Import ZifyBool.
 Local Open Scope Z_scope.
+Ltac Zify.zify_post_hook ::= Z.to_euclidean_division_equations.
 
 Lemma lset_nat_upd_nth l i v : lset_nat l i v = upd_nth i v l.
 Proof. revert i; induction l as [|a l IH]; intros [|i]; simpl; auto. now rewrite IH. Qed.
 
-Lemma z2b_b2z b : z2b (b2z b) = b.
-Proof. destruct b; reflexivity. Qed.
-
 Lemma lget_nat l (c : nat) : lget l (Z.of_nat c) = nth c l 0.
 Proof. unfold lget. now rewrite Nat2Z.id. Qed.
 
-Lemma next_cursor (c n : nat) : (c < n)%nat -> Z.of_nat n < 2 ^ 32 ->
-  crem (wrapu 32 (Z.of_nat c + wrapu 32 1)) (Z.of_nat n) = Z.of_nat (Nat.modulo (S c) n).
-Proof.
-  intros Hc Hn. unfold wrapu, crem.
-  rewrite (Z.mod_small 1) by lia. rewrite Z.mod_small by lia.
-  rewrite Z.rem_mod_nonneg by lia. rewrite Nat2Z.inj_mod. f_equal. lia.
-Qed.
+Lemma lset_natZ l (c : nat) v : lset l (Z.of_nat c) v = upd_nth c v l.
+Proof. unfold lset. now rewrite Nat2Z.id, lset_nat_upd_nth. Qed.
+
+(* decide a goal made of integer arithmetic, comparisons, if-then-else and the Leaf helpers *)
+Ltac leaf_decide :=
+  cbv zeta;
+  unfold wrapu, crem, cdiv, b2z, z2b in *;
+  change (2 ^ 32) with 4294967296 in *; change (2 ^ 64) with 18446744073709551616 in *;
+  repeat match goal with
+  | |- context [if ?c then _ else _] => destruct c eqn:?
+  end;
+  repeat (rewrite Z.mod_small by lia);
+  repeat (rewrite Z.rem_mod_nonneg by lia);
+  repeat (rewrite Z.mod_small by lia);
+  try reflexivity; try lia; try nia.
 
 Lemma gen_check_eq s now : wf s ->
   gen_muggle_flow_ctl_check (arr s) (Z.of_nat (cursor s)) (tw s) now = check s now.
-Proof. intros _. unfold gen_muggle_flow_ctl_check, check. cbv zeta. now rewrite z2b_b2z, lget_nat. Qed.
+Proof.
+  intros _. unfold gen_muggle_flow_ctl_check, check. rewrite ?lget_nat.
+  generalize (nth (cursor s) (arr s) 0); intros x. leaf_decide.
+Qed.
+
+Lemma gen_fast_check_eq s now : wf s ->
+  gen_muggle_fast_flow_ctl_check (arr s) (Z.of_nat (cursor s)) (tw s) now = check s now.
+Proof.
+  intros _. unfold gen_muggle_fast_flow_ctl_check, check. rewrite ?lget_nat.
+  generalize (nth (cursor s) (arr s) 0); intros x. leaf_decide.
+Qed.
+
+(* the next cursor, whatever way the C text computes it *)
+Ltac next_cursor_decide Hw Hn :=
+  rewrite Nat2Z.inj_mod; unfold wf in Hw;
+  generalize dependent (Z.of_nat (length (arr _)));
+  leaf_decide.
 
 Lemma gen_update_eq s now : wf s -> Z.of_nat (length (arr s)) < 2 ^ 32 ->
   gen_muggle_flow_ctl_update (arr s) (Z.of_nat (cursor s)) (Z.of_nat (length (arr s))) now
   = (arr (update s now), Z.of_nat (cursor (update s now))).
 Proof.
-  intros Hw Hn. unfold gen_muggle_flow_ctl_update, update, lset. cbv zeta. simpl.
-  rewrite Nat2Z.id, lset_nat_upd_nth, next_cursor by assumption. reflexivity.
+  intros Hw Hn. unfold gen_muggle_flow_ctl_update, update. cbv zeta. simpl arr. simpl cursor.
+  rewrite ?lset_natZ. f_equal.
+  rewrite Nat2Z.inj_mod. unfold wf in Hw.
+  assert (Hc : 0 <= Z.of_nat (cursor s) < Z.of_nat (length (arr s))) by lia.
+  replace (Z.of_nat (S (cursor s))) with (Z.of_nat (cursor s) + 1) by lia.
+  revert Hc Hn. generalize (Z.of_nat (cursor s)) (Z.of_nat (length (arr s))). intros c n Hc Hn.
+  leaf_decide.
 Qed.
-
-Lemma gen_fast_check_eq s now : wf s ->
-  gen_muggle_fast_flow_ctl_check (arr s) (Z.of_nat (cursor s)) (tw s) now = check s now.
-Proof. intros _. unfold gen_muggle_fast_flow_ctl_check, check. cbv zeta. now rewrite z2b_b2z, lget_nat. Qed.
 
 Lemma gen_fast_update_eq s now : wf s -> Z.of_nat (length (arr s)) < 2 ^ 32 ->
   gen_muggle_fast_flow_ctl_update (arr s) (Z.of_nat (cursor s)) (Z.of_nat (length (arr s))) now
   = (arr (update s now), Z.of_nat (cursor (update s now))).
 Proof.
-  intros Hw Hn. unfold gen_muggle_fast_flow_ctl_update, update, lset. cbv zeta. simpl.
-  rewrite Nat2Z.id, lset_nat_upd_nth, next_cursor by assumption. reflexivity.
+  intros Hw Hn. unfold gen_muggle_fast_flow_ctl_update, update. cbv zeta. simpl arr. simpl cursor.
+  rewrite ?lset_natZ. f_equal.
+  rewrite Nat2Z.inj_mod. unfold wf in Hw.
+  assert (Hc : 0 <= Z.of_nat (cursor s) < Z.of_nat (length (arr s))) by lia.
+  replace (Z.of_nat (S (cursor s))) with (Z.of_nat (cursor s) + 1) by lia.
+  revert Hc Hn. generalize (Z.of_nat (cursor s)) (Z.of_nat (length (arr s))). intros c n Hc Hn.
+  leaf_decide.
 Qed.
